@@ -83,8 +83,11 @@ Cur(c) == [noi |-> c[1], adv |-> c[2], wi |-> c[3], ob |-> c[4], la |-> c[5], lr
 \* clauses about the concrete object (only when the harness was built with hook H4)
 HookOk(e) ==
   Has(e, "co") =>
-    /\ (Len(e.co) = 6) <=> aux.ocompact                                   \* Compact iff monotone
-    /\ (Len(e.ce) = 6) <=> aux.ecompact
+    \* Compact (Advance-Index) encoding only when it can represent the table (monotone);
+    \* choosing Dense where Compact was possible answers correctly too and is NOT a violation
+    \* (the property is about answers; coordinator's decision, DESIGN.md 11.5)
+    /\ (Len(e.co) = 6) => aux.ocompact
+    /\ (Len(e.ce) = 6) => aux.ecompact
     /\ Len(e.co) = 6 =>
           PI!ListCursorInv(aux.ouniq, aux.oai, Len(starts), 64, Cur(e.co))
     /\ Len(e.ce) = 6 =>
